@@ -122,12 +122,16 @@ func (vc *VC) shapeNFA(n *nfa, s *Shape, depth int) frag {
 		return n.lit(s.S)
 	case "hole":
 		if s.Src != "" {
-			if re, ok := vc.eng.contracts.HoleLangs[s.Src]; ok {
+			hp := ""
+			if vc.fc != nil {
+				hp = vc.fc.Pkg + "|"
+			}
+			if re, ok := vc.eng.contracts.HoleLangs[hp+s.Src]; ok {
 				return vc.regexFrag(n, re)
 			}
 			// by last path component (e.g. every field named URI)
 			if i := strings.LastIndex(s.Src, "."); i >= 0 {
-				if re, ok := vc.eng.contracts.HoleLangs["*"+s.Src[i:]]; ok {
+				if re, ok := vc.eng.contracts.HoleLangs[hp+"*"+s.Src[i:]]; ok {
 					return vc.regexFrag(n, re)
 				}
 			}
